@@ -54,6 +54,9 @@ P = {
                        'C06_shrink_drops_nothing', 'C06_iter_drops_nothing', 'C06_clear_drops_each_once', 'C06_drop_map_drops_each_once', 'C06_lite_reachable']),
  'C13': dict(families=[('set', 120, 1500, 120)], aspects='RSD', profiles=['debug', 'release'],
              theorems=['C13_element_ops_refine', 'C13_algebra', 'C13_predicates', 'C13_iter_each_once']),
+ 'C07': dict(families=[('fuse', 300, 4000, 120)], aspects='RSDKA', profiles=['debug', 'release'],
+             theorems=['C07_invariant_survives', 'C07_later_calls_behave_normally', 'C07_self_consistent', 'C07_insert_loses_nothing_else', 'C07_reserve_only_loses',
+                       'C07_clone_source_untouched', 'C07_clone_from_interrupted', 'C07_entry_step_keeps_invariant']),
  'C05': dict(families=[('mixed', 120, 2000, 120), ('entry', 80, 1500, 120), ('iter', 80, 1500, 120)], aspects='RS', profiles=['debug', 'release'],
              theorems=['C05_no_fault', 'C05_cursor_agrees']),
 }
